@@ -26,7 +26,7 @@ def c03_bombs(r, seed, tier, model_ok):
     def val(): return R.choice([E(R.randrange(-5, 6)), "(ㄴ ㄷ ㄷㅎㄷ)", "(ㄱ ㅁㅈㅎㄴ)", T, F, "(ㄴ ㄷ ㅁㄹㅎㄷ)"])
     def shape(hole):
         """returns a program text with `hole` placed in a position that must never be evaluated"""
-        k = R.randrange(13) if R.random() < .8 else 12; v = val()
+        k = R.randrange(13) if R.random() < .6 else R.choice([12, 13, 13, 14]); v = val()
         if k == 0: return f"{v} {hole} (ㄱㅇㄱ ㅎ) ㅎㄷ", "unused-argument"
         if k == 1: return f"{hole} {v} (ㄴㅇㄱ ㅎ) ㅎㄷ", "unused-argument"
         if k == 2: return f"{v} {hole} {T} ㅎㄷ", "unselected-branch"
@@ -53,7 +53,23 @@ def c03_bombs(r, seed, tier, model_ok):
             if kk == 5: return call("ㅁㄷ", [lst, "(ㄴ ㅎ)"]), "map-constant"
             if kk == 6: return call("ㅈㄷ", [call("ㅅㅂ", [lst, "(ㅈㅈㅎㄱ ㅎ)"])]), "filter-constant-len"
             return f"{v} {hole} {call('ㅂㅂ', ['ㅈㄷ'])} ㅎㄷ", "spread-len"
-        if k == 12: pass
+        if k == 13:   # containers handed to the exception constructor ㄷㅂ (shallowly strict): their elements stay delayed whatever is done with the exception value
+            lst = call("ㅁㄹ", [v, hole, val()]); dct = call("ㅅㅈ", [E(1), v, E(2), hole]); kk = R.randrange(8)
+            if kk == 0: return call("ㅈㄷ", [call("ㄷㅂ", [lst])]), "exception-of-list-len"
+            if kk == 1: return call("ㅈㄷ", [f"({E(0)} {call('ㄷㅂ', [lst, val()])} ㅎㄴ)"]), "exception-of-list-payload-len"
+            if kk == 2: return f"({E(R.choice([0, 2]))} ({E(0)} {call('ㄷㅂ', [lst])} ㅎㄴ) ㅎㄴ)", "exception-of-list-other-element"
+            if kk == 3: return call("ㅈㄷ", [call("ㄷㅂ", [dct])]), "exception-of-dict-len"
+            if kk == 4: return f"({E(1)} ({E(0)} {call('ㄷㅂ', [dct])} ㅎㄴ) ㅎㄴ)", "exception-of-dict-other-value"
+            if kk == 5: return call("ㅈㄷ", [call("ㄷㅂ", [call("ㄷㅂ", [lst])])]), "exception-of-exception-len"
+            if kk == 6: return f"({call('ㄷㅂ', [lst])} ㄷㅈㅎㄴ) (({E(0)} ({E(0)} ㄱㅇㄱ ㅎㄴ) ㅎㄴ) ㅎ) ㅅㄷㅎㄷ", "thrown-caught-first-element"
+            return f"({call('ㄷㅂ', [dct, lst])} ㄷㅈㅎㄴ) ((ㄱㅇㄱ ㅈㄷㅎㄴ) ㅎ) ㅅㄷㅎㄷ", "thrown-caught-len"
+        if k == 14:   # containers inside containers, and containers passed through functions that only measure them
+            lst = call("ㅁㄹ", [v, hole, val()]); kk = R.randrange(5)
+            if kk == 0: return call("ㅈㄷ", [call("ㅁㄹ", [lst, lst])]), "list-of-lists-len"
+            if kk == 1: return f"({E(0)} ({E(1)} {call('ㅁㄹ', [val(), lst])} ㅎㄴ) ㅎㄴ)", "list-of-lists-other-element"
+            if kk == 2: return f"{lst} ((ㄱㅇㄱ ㅈㄷㅎㄴ) ㅎ) ㅎㄴ", "function-measures-list"
+            if kk == 3: return call("ㅈㄷ", [call("ㅅㅈ", [E(1), lst, E(2), hole])]), "dict-of-list-len"
+            return f"({E(2)} ({E(1)} {call('ㅅㅈ', [E(1), lst])} ㅎㄴ) ㅎㄴ)", "dict-of-list-other-element"
         inner, kk = shape(hole); return f"{inner} {hole} (ㄱㅇㄱ ㅎ) ㅎㄷ", "nested-" + kk
     cases = []; twins = []; kinds = collections.Counter()
     for _ in range(n):
@@ -69,7 +85,7 @@ def c03_bombs(r, seed, tier, model_ok):
         if out_of(x) != out_of(y) and "TIMEOUT" not in x + y:
             bad.append(dict(program=c["text"], impl=str(out_of(x))[:200], model="the bomb-free twin gives " + str(out_of(y))[:200], which=["bomb-" + c["bomb"]]))
     r.slice("bombs_in_nonstrict_positions", len(cases), len({c["text"] for c in cases}), [cases[0]["text"], cases[1]["text"]], dict(kinds),
-            "12 non-strict position shapes x 5 bombs; oracle: same (result, stdout, unread stdin) as the twin with a harmless literal in the marked position", bad[:40])
+            "15 non-strict position shape families x 5 bombs; oracle: same (result, stdout, unread stdin) as the twin with a harmless literal in the marked position", bad[:40])
     if model_ok:
         m = model_run(cases); dist, bad2 = compare(cases, a, m)
         r.slice("bomb_programs_vs_model", len(cases), len({c["text"] for c in cases}), [cases[2]["text"]], dict(outcomes=dict(dist)), "the same programs, complete event trace vs the model (an evaluated bomb would add events)", bad2)
@@ -125,3 +141,44 @@ def c10_faults(r, seed, tier, model_ok):
         m = model_run(cases); dist, bad2 = compare(cases, a, m)
         r.slice("planted_faults_vs_model", len(cases), len({c["text"] for c in cases}), [cases[0]["text"], cases[1]["text"]], dict(outcomes=dict(dist), kinds=len(kinds)),
                 "fault kind x nesting x 0..3 try layers x handler kinds; result, error code list, ALL location spans and event trace vs the model", bad2)
+
+
+def c10_import_faults(r, seed, tier, model_ok):
+    """the one failure class whose code equals the marker (import failure, code 5): ambiguous / missing / empty / two-expression / undecodable /
+    unknown built-in modules raised under ㅅㄷ with handlers that return the exception, its marker, its class code, its length, or re-throw it,
+    and under the reject handler of ㄱㄹ: the handler must receive exactly [5, 5] (and [5, -60] for names that resolve to nothing)"""
+    import os, shutil
+    parse, interpret, AS, M = vlib.mods()
+    from pbhhg_py.builtins import module as MOD
+    from slices_world import scratch, st
+    R = random.Random(seed * 7919 + 0xC10 + 7); SCR = scratch("c10i"); cwd = os.getcwd(); bad = []; cnt = collections.Counter(); n = 0
+    def ev(text):
+        MOD._MODULE_REGISTRY.clear()
+        try: return "V " + interpret.evaluate(M.formatter(AS.Expr(parse.parse("<t>", text)[0], AS.Env([], [])), False))
+        except AS.UnsuspectedHangeulError as e: return "E " + ",".join(str(v.value) if isinstance(v, AS.Integer) else "?" for v in e.err.value)
+        except BaseException as e: return vlib.host_site(e)
+    try:
+        os.chdir(SCR)
+        open("empty", "w").write(""); open("two", "w").write("ㄱ ㄴ"); open("ㅁ", "w").write("ㄱ"); open("ㅁㅏ", "w").write("ㄴ"); open("latin", "wb").write(b"\xff\xfe\xb0")
+        progs = [("ambiguous", "(ㅁ ㅂㅎㄴ)", 5), ("missing-literal", "(ㅅ ㅈ ㅂㅎㄷ)", -60), ("missing-path", f"({st('nope/none')} ㅂㅎㄴ)", None), ("empty", f"({st('empty')} ㅂㅎㄴ)", None),
+                 ("two-expressions", f"({st('two')} ㅂㅎㄴ)", None), ("undecodable", f"({st('latin')} ㅂㅎㄴ)", 5), ("unknown-builtin", "(ㅂ ㄴㄴㄴ ㅂㅎㄷ)", -60)]
+        wraps = [("identity", "{p} ((ㄱㅇㄱ) ㅎ) ㅅㄷㅎㄷ", "V <예외: [5, 5]>"), ("marker", "{p} ((ㄱ ㄱㅇㄱ ㅎㄴ) ㅎ) ㅅㄷㅎㄷ", "V 5"), ("class-code", "{p} ((ㄴ ㄱㅇㄱ ㅎㄴ) ㅎ) ㅅㄷㅎㄷ", "V 5"),
+                 ("length", "{p} ((ㄱㅇㄱ ㅈㄷㅎㄴ) ㅎ) ㅅㄷㅎㄷ", "V 2"), ("rethrow", "({p} ((ㄱㅇㄱ ㄷㅈㅎㄴ) ㅎ) ㅅㄷㅎㄷ)", "E 5,5"), ("uncaught", "{p}", "E 5,5"),
+                 ("inside-list", "({p} ㄱ ㅁㄹㅎㄷ) ((ㄱㅇㄱ ㅈㄷㅎㄴ) ㅎ) ㅅㄷㅎㄷ", "V 2"),
+                 ("bind-reject", "(({p} ㄱㅅㅎㄴ) (ㄱㅇㄱ ㄱㅅㅎㄴ ㅎ) ㄱㄹㅎㄷ)", "E 5,5"),
+                 ("action-reject", "(((ㄱ ㄱㅅㅎㄴ) ({p} ㅎ) ㄱㄹㅎㄷ) (ㄱㅇㄱ ㄱㅅㅎㄴ ㅎ) ((ㄱㅇㄱ ㅈㄷㅎㄴ ㄱㅅㅎㄴ) ㅎ) ㄱㄹㅎㄹ)", "V 2")]
+        for what, p, code in progs:
+            base = ev(p); parts = base[2:].split(",") if base.startswith("E ") else []
+            okbase = len(parts) >= 2 and parts[0] == "5" and all(x.lstrip("-").isdigit() for x in parts) and (code is None or parts[1] == str(code))
+            n += 1; cnt[what + "/uncaught"] += 1
+            if not okbase:
+                bad.append(dict(program=p + "   (cwd holds: empty, two, ㅁ, ㅁㅏ, latin)", impl=base, model=f"a language-level exception [5, {code if code is not None else 'class code'}, ...] ({what})", which=["import-failure-contents"])); continue
+            lst = "[" + ", ".join(parts) + "]"
+            for wn, w, want in wraps:
+                want = {"identity": f"V <예외: {lst}>", "marker": "V 5", "class-code": f"V {parts[1]}", "length": f"V {len(parts)}", "rethrow": base, "uncaught": base,
+                        "inside-list": f"V {len(parts)}", "bind-reject": base, "action-reject": f"V {len(parts)}"}[wn]
+                t = w.replace("{p}", p); got = ev(t); n += 1; cnt[what + "/" + wn] += 1
+                if got != want: bad.append(dict(program=t + "   (cwd holds: empty, two, ㅁ, ㅁㅏ, latin)", impl=got, model=f"{want}  (the handler receives exactly what the failure raises uncaught: {base}; {what} under {wn})", which=["import-failure-contents"]))
+    finally:
+        os.chdir(cwd); shutil.rmtree(SCR, ignore_errors=True); MOD._MODULE_REGISTRY.clear()
+    r.slice("import_failures_under_handlers", n, n, ["(ㅁ ㅂㅎㄴ) ((ㄴ ㄱㅇㄱ ㅎㄴ) ㅎ) ㅅㄷㅎㄷ"], dict(cnt), "7 kinds of import failure x 9 handler contexts: contents must be exactly [5, class code] - [5, 5] for import failures proper, [5, -60] for a name that resolves to nothing", bad[:40])
